@@ -859,8 +859,25 @@ func emitViaAPI(r *vlib.R, u *universe, emit func(string)) int {
 		emit("bl apiempty " + vlib.Pick(r, []string{"setbatch", "removebatch"}))
 		n++
 	}
+	for i := 0; i < r.Intn(3); i++ {
+		variant := vlib.Pick(r, []string{"malformed", "wrongtype", "unknown", "nullkeys", "emptyobj"})
+		if largeBodyBudget > 0 && r.Chance(1, 6) {
+			largeBodyBudget--
+			variant = "toolarge"
+		}
+		if p := presentEntry(r); p != "" && r.Bool() {
+			emit("bl apibody remove " + variant + " " + enc(p))
+		} else {
+			e, _ := u.entry(r, "plain")
+			emit("bl apibody set " + variant + " " + enc("body."+e))
+		}
+		n++
+	}
 	return n
 }
+
+// largeBodyBudget bounds the 8 MiB request bodies.
+var largeBodyBudget int
 
 // mainText: the main file as it is on disk right now ("_" = none).
 func mainText() string {
@@ -1077,7 +1094,9 @@ func gen(r *vlib.R, n int, tier string, emit func(string)) {
 	apiBudget = 40
 	remoteBudget = 30
 	bulkBudget = 5
+	largeBodyBudget = 2
 	if tier == "thorough" {
+		largeBodyBudget = 20
 		remoteBudget = 400
 		bulkBudget = 40
 		crashes, concs = 150, 300
